@@ -38,8 +38,11 @@ class Ctx:
         if len(self.samples) < limit:
             self.samples.append(obj)
 
-    def fail(self, kind, case, detail):
-        self.failures.append({"kind": kind, "case": case, "detail": detail})
+    def fail(self, kind, case, detail, correspondence_only=False):
+        """correspondence_only: the implementation and the model differ on this case although every observation the property
+        speaks about was checked on it and agrees (a structural difference): the theorems about the model no longer transfer to
+        the code, no failing input is known."""
+        self.failures.append({"kind": kind, "case": case, "detail": detail, "correspondence_only": correspondence_only})
 
     # --- running ---------------------------------------------------------------------
     def impl(self, module, cases, timeout=10, hashseeds=None, retry=True):
@@ -189,8 +192,18 @@ def main():
             else:
                 new_fail.append(f)
 
-        if new_fail:
+        hard = [f for f in new_fail if not f.get("correspondence_only")]
+        if new_fail and not hard:
             f = shrink(mod, prop, tier, seed, new_fail[0])
+            rp = common.write_replay(prop, {"property": prop, "kind": f["kind"], "broken": "correspondence between the Gallina model and the implementation (%s)" % f["kind"],
+                                            "case": f["case"], "detail": f["detail"], "seed": seed, "tier": tier, "legT_problems": lt["problems"],
+                                            "note": "the implementation and the model differ on this case, but every observation the property speaks about agrees "
+                                                    "on all generated cases: no failing input found; the theorems about the model no longer transfer to the code",
+                                            "how": "./check %s --replay <this file>" % prop})
+            lines.append("VIOLATION property=%s replay=%s no-failing-input-found" % (prop, rp))
+            status = 1
+        elif new_fail:
+            f = shrink(mod, prop, tier, seed, hard[0])
             rp = common.write_replay(prop, {"property": prop, "kind": f["kind"], "case": f["case"], "detail": f["detail"],
                                             "seed": seed, "tier": tier, "legT_problems": lt["problems"],
                                             "how": "./check %s --replay <this file>" % prop})
